@@ -169,6 +169,12 @@ class WebSession(object):
 
                 request = self._original_request.copy()
                 request.url = url
+
+                # The copy carries fields that were computed for the original
+                # URL. Host is set again by prepare_for_send(); cookies and
+                # authorization are added again for the new URL as needed.
+                for name in ('Host', 'Cookie', 'Authorization'):
+                    request.fields.pop(name, None)
             else:
                 request = self._request_factory(url)
 
